@@ -23,6 +23,7 @@ type Obligation struct {
 	Goal   string
 	DeclText string
 	Axioms string
+	Final  map[string]string // heap array name -> term at the point of the obligation
 	Clause *Clause
 	Inputs map[string]Val // parameter / pre-state names for model extraction
 	Note   string
@@ -422,6 +423,9 @@ func (x *Exec) emit(s *State, kind, label string, props []string, goal string, c
 	o := &Obligation{Name: fname + "/" + kind + ":" + label, Func: fname, Kind: kind, Label: label, Props: props,
 		PathID: x.paths, PC: append([]string(nil), s.pc...), Goal: goal, Clause: cl, Inputs: x.inputs,
 		Note: strings.Join(s.trace, " > ")}
+	if kind == "ensures" || kind == "inv" || kind == "rely" || kind == "safety" {
+		o.Final = copyHeap(s.heap)
+	}
 	x.obls = append(x.obls, o)
 }
 
